@@ -23,6 +23,9 @@ func seqBatch(c *kit.Case, timed bool, seqs int) {
 	r := c.R
 	c.Evals(int64(seqs))
 	for s := 0; s < seqs; s++ {
+		if skipAfterLeak(c, map[bool]string{false: "limit", true: "tlimit"}[timed]) {
+			return
+		}
 		n := pickN(r)
 		var ad limAdapter
 		if timed {
@@ -64,6 +67,7 @@ func seqBatch(c *kit.Case, timed bool, seqs int) {
 					if !borrowWatched(ad) {
 						// one goroutine, fewer than n permits out by the model, nobody else can ever
 						// return one: a Borrow parked in its channel send is blocked for good
+						leakVerdict(ad.name)
 						fail("seq/borrow-blocked-below-cap", fmt.Sprintf("blocking Borrow is parked although only %d of %d permits are out in a sequential history - capacity was lost", held, n))
 						desync = true
 						continue
@@ -139,7 +143,7 @@ func seqBatch(c *kit.Case, timed bool, seqs int) {
 }
 
 // borrowWatched runs the blocking Borrow of a sequential history. It returns false
-// only if the call is parked in a channel send (goroutine state, consecutive dumps)
+// only if the call is parked (goroutine state, consecutive dumps)
 // after a generous patience: with no other goroutine able to return a permit that
 // state is permanent. A goroutine that is merely slow keeps being waited for.
 func borrowWatched(ad limAdapter) bool {
@@ -151,7 +155,8 @@ func borrowWatched(ad limAdapter) bool {
 	select {
 	case <-done:
 		return true
-	case <-time.After(stuckProbeAt):
+	case <-time.After(patience()):
+		patienceExpired()
 	}
 	parked := 0
 	for {
@@ -160,7 +165,7 @@ func borrowWatched(ad limAdapter) bool {
 			return true
 		case <-time.After(stuckEvery):
 		}
-		if goroutineParkedIn("c05.borrowWatched.func1", "chan send") {
+		if goroutineParked("c05.borrowWatched.func1") {
 			parked++
 		} else {
 			parked = 0
@@ -171,15 +176,16 @@ func borrowWatched(ad limAdapter) bool {
 	}
 }
 
-// goroutineParkedIn reports whether a goroutine whose stack contains fn is in the given wait state.
-func goroutineParkedIn(fn, state string) bool {
+// goroutineParked reports whether a goroutine whose stack contains fn exists and is
+// parked (not runnable / running / in a syscall).
+func goroutineParked(fn string) bool {
 	for _, blk := range strings.Split(stacks(), "\n\n") {
 		if strings.Contains(blk, fn) {
 			hdr := blk
 			if i := strings.IndexByte(blk, '\n'); i >= 0 {
 				hdr = blk[:i]
 			}
-			if strings.Contains(hdr, "["+state) {
+			if !strings.Contains(hdr, "[runnable") && !strings.Contains(hdr, "[running") && !strings.Contains(hdr, "[syscall") {
 				return true
 			}
 		}
@@ -244,6 +250,9 @@ func genLimPlan(r *kit.Rand, timed bool) (limPlan, int) {
 }
 
 func limConc(c *kit.Case, timed bool) {
+	if skipAfterLeak(c, map[bool]string{false: "limit", true: "tlimit"}[timed]) {
+		return
+	}
 	p, lk := genLimPlan(c.R, timed)
 	var ad limAdapter
 	if timed {
